@@ -23,6 +23,11 @@ pub struct Case {
     /// frames the stalled subscriber reads before it stops
     pub reads: u8,
     pub seed: u16,
+    /// the stalled subscriber's connection has a small connection-level receive window, so
+    /// the whole connection runs out of credit; it then registers one more stream, whose
+    /// reply the server cannot deliver
+    #[serde(default)]
+    pub small_window: bool,
 }
 
 async fn reg(conn: &quinn::Connection, f: Frame, dl: Duration) -> Option<BiStream> {
@@ -102,7 +107,17 @@ async fn run_inner(certs: &Certs, c: &Case) -> Outcome {
         Ok(c) => c,
         Err(e) => return Outcome::Inconclusive(e),
     };
-    let Some(mut stalled_sub) = reg(&c1, reg_sub(ns_a, "aaa"), Duration::from_secs(10)).await else {
+    // the stalled subscriber lives on its own connection when that connection is to run out
+    // of credit as a whole
+    let c_sub = if c.small_window {
+        match raw_connect_window(addr, &id, 192 * 1024).await {
+            Ok(c) => c,
+            Err(e) => return Outcome::Inconclusive(e),
+        }
+    } else {
+        c1.clone()
+    };
+    let Some(mut stalled_sub) = reg(&c_sub, reg_sub(ns_a, "aaa"), Duration::from_secs(10)).await else {
         return Outcome::Inconclusive("stalled subscriber could not register".into());
     };
     let mut conns = vec![];
@@ -170,6 +185,19 @@ async fn run_inner(certs: &Certs, c: &Case) -> Outcome {
             Err(_) => unanswered_in_a_row += 1,
         }
     }
+    let mut hung_stream = None;
+    if c.small_window && stalled {
+        // one more registration from the client whose connection has no credit left: its
+        // reply cannot be delivered, which must not matter to anybody else
+        if let Ok(bi) = tokio::time::timeout(Duration::from_secs(5), c_sub.open_bi()).await {
+            if let Ok(bi) = bi {
+                let mut s = BiStream::from(bi);
+                let _ = tokio::time::timeout(Duration::from_secs(2), s.send(reg_sub(ns_b, "eee"))).await;
+                hung_stream = Some(s);
+            }
+        }
+        tokio::time::sleep(Duration::from_millis(100)).await;
+    }
     // ---- topic B must still register and route ----
     let dl = Duration::from_secs(12);
     let raw = round_trip_raw(addr, &id, ns_b, "bbb", dl).await;
@@ -202,6 +230,31 @@ async fn run_inner(certs: &Certs, c: &Case) -> Outcome {
             Err(_) => return Outcome::fail("other-topic-blocked-on-shared-connection", format!("{ctx_s}: opening streams for topic B over the connection that also carries the stuck publishers did not complete")),
         }
     }
+    // ... and over the connections that queued registrations on the stalled topic
+    for (ci, cq) in conns.iter().enumerate().take(3) {
+        let over = async {
+            let mut s = reg(cq, reg_sub(ns_b, &format!("qqq{ci}")), dl).await.ok_or("subscriber registration not answered Ok")?;
+            let mut p = reg(cq, reg_pub(ns_b, &format!("qqq{ci}")), dl).await.ok_or("publisher registration not answered Ok")?;
+            let end = Instant::now() + dl;
+            loop {
+                p.send(msg(b"queue-conn-probe".to_vec())).await.map_err(|e| e.to_string())?;
+                match tokio::time::timeout(Duration::from_millis(50), s.next()).await {
+                    Ok(Some(Ok(_))) => return Ok::<(), String>(()),
+                    Ok(o) => return Err(format!("subscriber stream ended: {:?}", o.map(|x| x.map(|_| ()).map_err(|e| e.to_string())))),
+                    Err(_) => {}
+                }
+                if Instant::now() > end {
+                    return Err("answered Ok but no message was routed before the deadline".to_string());
+                }
+            }
+        };
+        match tokio::time::timeout(dl + Duration::from_secs(2), over).await {
+            Ok(Ok(())) => {}
+            Ok(Err(e)) => return Outcome::fail("other-topic-blocked-on-queueing-connection", format!("{ctx_s}: a publisher/subscriber pair on topic B opened over connection {ci}, which also has registrations queued on the stalled topic: {e}")),
+            Err(_) => return Outcome::fail("other-topic-blocked-on-queueing-connection", format!("{ctx_s}: opening streams for topic B over connection {ci}, which also has registrations queued on the stalled topic, did not complete")),
+        }
+    }
+    drop(hung_stream);
     if let Err(e) = round_trip_client(addr, certs, "/healthy/ccc", dl).await {
         return Outcome::fail("other-topic-blocked-client", format!("{ctx_s}: {e}"));
     }
@@ -211,6 +264,7 @@ async fn run_inner(certs: &Certs, c: &Case) -> Outcome {
     if nq > QUEUE_CAP { labels.push("queued>capacity"); }
     if nq > 0 && nq <= QUEUE_CAP { labels.push("queued<=capacity"); }
     if c.mixed { labels.push("mixed-registration-kinds"); }
+    if c.small_window { labels.push("stalled-client-connection-out-of-credit"); }
     Outcome::pass(labels, stalled && nq > QUEUE_CAP)
 }
 
@@ -223,8 +277,8 @@ pub fn strategy() -> BoxedStrategy<Case> {
         2 => Just(260u16),
         1 => 105u16..300,
     ];
-    (after, prop_oneof![2 => Just(0u8), 1 => 1u8..90], 0u8..3, any::<bool>(), 0u8..4, any::<u16>())
-        .prop_map(|(after, before, npubs, mixed, reads, seed)| Case { after, before, npubs, mixed, reads, seed })
+    (after, prop_oneof![2 => Just(0u8), 1 => 1u8..90], 0u8..3, any::<bool>(), 0u8..4, any::<u16>(), prop::bool::weighted(0.4))
+        .prop_map(|(after, before, npubs, mixed, reads, seed, small_window)| Case { after, before, npubs, mixed, reads, seed, small_window })
         .boxed()
 }
 
